@@ -95,7 +95,7 @@ Definition nat_admits (s : sys) (dst src : N) : bool :=
   end.
 
 (* port forwarding without hair-pinning: a node with a public address P is seen as P by everybody, datagrams
-   addressed to P reach it, except its own (dropped by the router) *)
+   addressed to P reach it, except its own (dropped by the router); its private address is unreachable *)
 Definition seen_as (s : sys) (node : N) : N := match aget (s_alias s) node with Some p => p | None => node end.
 Definition owner_of (s : sys) (addr : N) : option N :=
   match find (fun e => snd e =? addr) (s_alias s) with Some e => Some (fst e) | None => None end.
@@ -103,7 +103,12 @@ Definition owner_of (s : sys) (addr : N) : option N :=
 Definition route (s : sys) (from dst : N) : option (N * N) :=
   match owner_of s dst with
   | Some j => if j =? from then None else Some (j, seen_as s from)
-  | None => Some (dst, seen_as s from)
+  | None =>
+      (* the private address of a node behind such a router is not reachable from outside *)
+      match aget (s_alias s) dst with
+      | Some _ => None
+      | None => Some (dst, seen_as s from)
+      end
   end.
 
 Definition deliver_to (salts : list (N * N)) (s : sys) (dst src : N) (w : wire) : sys * sout :=
